@@ -1,0 +1,47 @@
+//go:build verif
+
+package respondent
+
+import "go.nanomsg.org/mangos/v3/protocol"
+
+// Read-only projection of the socket state for the conformance harness in
+// /verif (build tag "verif").
+
+// VerifCtx is the projected state of one context.
+type VerifCtx struct {
+	Closed    bool
+	RecvWait  bool
+	Backtrace []byte // nil if none
+	HasBT     bool
+	RecvPipe  uint32 // 0 if none
+}
+
+// VerifSnap is the projected state of the socket.
+type VerifSnap struct {
+	Closed bool
+	TTL    int
+	RecvQ  int // messages queued in the socket's receive queue
+	Ctxs   []VerifCtx
+}
+
+// VerifSnapshot projects the state of p (created by NewProtocol) and of the
+// given contexts (nil stands for the default context).
+func VerifSnapshot(p protocol.Protocol, ctxs []protocol.Context) VerifSnap {
+	s := p.(*socket)
+	s.Lock()
+	defer s.Unlock()
+	sn := VerifSnap{Closed: s.closed, TTL: s.ttl, RecvQ: len(s.recvQ)}
+	for _, pc := range ctxs {
+		c := s.defCtx
+		if pc != nil {
+			c = pc.(*context)
+		}
+		v := VerifCtx{Closed: c.closed, RecvWait: false, HasBT: c.backtrace != nil}
+		v.Backtrace = append(v.Backtrace, c.backtrace...)
+		if c.recvPipe != nil {
+			v.RecvPipe = c.recvPipe.p.ID()
+		}
+		sn.Ctxs = append(sn.Ctxs, v)
+	}
+	return sn
+}
